@@ -685,6 +685,25 @@ func genC01(r *Run) {
 			oracleC01(r, a)
 		}
 	}
+	// option values that repeat or refer to header fields, as the RFCs define them: a client identifier whose type
+	// octet is the hardware type (RFC 2132 9.14, RFC 4390 for IPoIB with an EMPTY chaddr), requested / server
+	// addresses equal to yiaddr / siaddr, a hardware address repeated in option 61 - with chaddr of 0, 6 and 16
+	// octets: header fields are read from the header and options from the options, whatever they say about each other
+	for _, ht := range []int{1, 6, 32, 0, 255} {
+		for _, hl := range []int{0, 6, 16} {
+			for vi := 0; vi < 5; vi++ {
+				hw := r.Bytes(hl)
+				idBody := [][]byte{append([]byte{}, hw...), r.Bytes(6), r.Bytes(20), {7}, {}}[vi]
+				yi := r.Bytes(4)
+				a := r.randPkt(map[byte][]byte{61: append([]byte{byte(ht)}, idBody...), 50: yi, 54: r.Bytes(4), 53: {byte(1 + vi)}})
+				a[1] = []byte{0, byte(ht)}
+				a[7] = yi
+				a[10] = hw
+				r.Add(eV4EncDec, a...)
+				oracleC01(r, a)
+			}
+		}
+	}
 	// chaddr lengths 0..16 in the domain, 17, 20, 255, 256 outside it (pins the model's out-of-domain behaviour)
 	for _, hl := range []int{0, 1, 2, 3, 4, 5, 6, 7, 8, 9, 10, 11, 12, 13, 14, 15, 16, 17, 20, 255, 256} {
 		a := r.randPkt(r.randOpts(3, 40))
@@ -842,6 +861,28 @@ func genC04(r *Run) {
 		}
 	}
 	rec(nil)
+	// option areas made of pad octets only (a legacy BOOTP message with the cookie and an all-zero vendor field), of
+	// every length up to 80 and some up to 1300: without an End option they are no DHCP option area, whatever the
+	// total length; with one End - first, in the middle, last - they are an empty one
+	for _, n := range append(func() (l []int) {
+		for i := 0; i <= 80; i++ {
+			l = append(l, i)
+		}
+		return
+	}(), 100, 200, 255, 256, 260, 300, 336, 1000, 1260) {
+		z := make([]byte, n)
+		add(append(append([]byte{}, hdr...), z...))
+		if n > 0 {
+			for _, at := range []int{0, n / 2, n - 1} {
+				w := append(append([]byte{}, hdr...), z...)
+				w[240+at] = 255
+				add(w)
+			}
+			w := append(append([]byte{}, hdr...), z...)
+			w[240+n-1] = 1 // a code whose length octet is missing
+			add(w)
+		}
+	}
 	r.Extra["exhaustive_alphabet"] = fmt.Sprintf("option areas over %v up to length %d behind a fixed valid header", alpha, maxLen)
 	// the same areas through Options.FromBytes (no End required): C17's relay sub-option grammar
 	for _, c := range append([]Case{}, r.cases...) {
